@@ -31,7 +31,7 @@ def main():
     shutil.copy(patch, os.path.join(dst, "patch.diff"))
     shutil.copy(demo, os.path.join(dst, "demo.rs"))
     meta_txt = open(os.path.join(src, x + ".meta.txt")).read() if os.path.exists(os.path.join(src, x + ".meta.txt")) else ""
-    env = dict(os.environ, CARGO_NET_OFFLINE="true", CARGO_TARGET_DIR="/tmp/seedwt/target")
+    env = dict(os.environ, CARGO_NET_OFFLINE="true", CARGO_TARGET_DIR="/tmp/seedwt/target-" + name)
     env.pop("RUSTFLAGS", None)
     os.makedirs(os.path.join(wt, "tests"), exist_ok=True)
     shutil.copy(demo, os.path.join(wt, "tests", "seed_demo.rs"))
@@ -67,6 +67,7 @@ def main():
             "detected": any(r["exit"] == 1 for r in results.values())}
     json.dump(meta, open(os.path.join(dst, "meta.json"), "w"), indent=1)
     sh(["git", "-C", "/repo", "worktree", "remove", "--force", wt])
+    shutil.rmtree("/tmp/seedwt/target-" + name, ignore_errors=True)
     print(name, "confirmed=%s" % confirmed, {p: (r["exit"], r["lines"][-1:] ) for p, r in results.items()})
 
 
